@@ -51,6 +51,7 @@ def main(spec):
         C.KNOWN[:] = spec.get("known", [])
         from pyvc import smt as SMT
         SMT.EXPORT[0] = bool(spec.get("export_all"))
+        if os.environ.get("PYVC_UNIT_DEADLINE_S"): SMT.UNIT_DEADLINE[0] = t0 + float(os.environ["PYVC_UNIT_DEADLINE_S"])
         I = new_interp()
         res, npaths = C.verify(I, spec["target"], timeout_ms=spec.get("timeout_ms", 10000), only=spec.get("only"))
         f = I.get_func(spec["target"]); src = ast.unparse(f.node)
@@ -59,6 +60,7 @@ def main(spec):
         rep["paths"] = npaths; rep["pruned"] = getattr(I, "last_counts", {}).get("pruned", 0)
         rep["lib_used"] = sorted(getattr(I, "lib_log", set())); rep["executed"] = sorted(getattr(I, "executed", set()))
         rep["contracts_applied"] = sorted(getattr(I, "applied", set()))
+        rep["derived_attributes"] = sorted({e for e in I.events if isinstance(e, str) and e.startswith("derived-attribute:")})
         for r in res:
             v = r.verdict
             rep["results"].append({"name": r.name, "path": r.path, "status": v.status, "backend": v.backend, "secs": round(v.secs, 4), "lemmas": v.lemmas,
